@@ -378,6 +378,16 @@ def check_radial_and_transform(ctx, prof_name, p, grid, gin, W, out_cls, wrap_ok
                 rz = np.sqrt(gz[:, 0] ** 2 + gz[:, 1] ** 2)
             ctx.check(bool(np.isfinite(gz).all() and np.all(rz >= mn * (1 - 1e-12))), "radial.centre_point_leaves_the_minimum", radial_minimum=mn,
                       received=gz, **W)
+        if zero.any() or near.any():
+            # the same call in a process that treats floating point errors as errors (np.seterr(all="raise"), warnings as errors):
+            # whatever the guard divides by internally stays internal - the function still gets its coordinates
+            p.log.clear()
+            p.frame_log.clear()
+            with np.errstate(all="raise"):
+                oks, res_s = ctx.guarded("radial.strict_floating_point_settings", lambda: p.f_moved(grid))
+            if oks:
+                ctx.check(len(p.log) == 1 and p.log[0][1].shape == got.shape and np.array_equal(p.log[0][1], got, equal_nan=True),
+                          "radial.strict_floating_point_settings", radial_minimum=mn, received_default=got, received_strict=lambda: p.log[0][1] if p.log else None, **W)
         keep = ~zero
         ctx.check(isinstance(res, out_cls) and wrap_ok(res) and _np(res if not hasattr(res, "slim") else res.slim).shape == got.shape
                   and np.array_equal(_np(res if not hasattr(res, "slim") else res.slim)[keep], got[keep]),
